@@ -141,6 +141,33 @@ pub fn layouts(thorough: bool) -> Vec<(String, in_toto::models::LayoutMetadata)>
         let table: Vec<&keys::Key> = (0..4).filter(|i| mask & (1 << i) != 0).map(|i| kk[i]).collect();
         out.push((format!("keys:mask={mask}"), world::layout(vec![], vec![], &table, world::far_future())));
     }
+    // key tables whose keys were obtained on other construction paths (no hash-algorithm
+    // list, one-element list, from SubjectPublicKeyInfo)
+    {
+        use in_toto::crypto::{PublicKey, SignatureScheme};
+        let variants: Vec<(&str, PublicKey)> = vec![
+            ("ed25519-raw", PublicKey::from_ed25519(keys::ED1_PUB.to_vec()).unwrap()),
+            ("ed25519-one-alg", PublicKey::from_ed25519_with_keyid_hash_algorithms(keys::ED1_PUB.to_vec(), Some(vec!["sha256".to_string()])).unwrap()),
+            ("ecdsa-raw", PublicKey::from_ecdsa(keys::get("ec1").public().as_bytes().to_vec()).unwrap()),
+            ("ecdsa-reordered-algs", PublicKey::from_ecdsa_with_keyid_hash_algorithms(keys::get("ec2").public().as_bytes().to_vec(), Some(vec!["sha512".to_string(), "sha256".to_string()])).unwrap()),
+            ("rsa-spki-sha512", PublicKey::from_spki(keys::RSA_SPKI[1], SignatureScheme::RsaSsaPssSha512).unwrap()),
+            ("ed25519-spki", PublicKey::from_spki(keys::ED_SPKI_RFC8410[1], SignatureScheme::Ed25519).unwrap()),
+            ("ecdsa-spki", PublicKey::from_spki(keys::EC_SPKI[2], SignatureScheme::EcdsaP256Sha256).unwrap()),
+        ];
+        for (n, pk) in &variants {
+            let mut l = world::layout(vec![], vec![], &[], world::far_future());
+            l.keys.insert(pk.key_id().clone(), pk.clone());
+            let mut st = Step::new("s");
+            st.pub_keys.push(pk.key_id().clone());
+            l.steps.push(st);
+            out.push((format!("keys:construction={n}"), l));
+        }
+        let mut l = world::layout(vec![], vec![], &[], world::far_future());
+        for (_, pk) in &variants {
+            l.keys.insert(pk.key_id().clone(), pk.clone());
+        }
+        out.push(("keys:construction=all".into(), l));
+    }
     // readme strings
     for s in util::strings_upto(&c05::SIGMA_STR, if thorough { 2 } else { 1 }) {
         let mut l = world::layout(vec![], vec![], &[], world::far_future());
